@@ -23,7 +23,7 @@ ASSUMPTIONS = ['bad facts are read from the trace (which hooks raised, which '
                'tests started) and calibrated unittest outcome kinds',
                'a child crash/spawn failure/cut report injected by the '
                'harness counts as a bad fact']
-FLOORS = {'verdicts_judged': 600, 'good_controls': 40, 'bad_plans': 250,
+FLOORS = {'iteration_dependent_plans': 15, 'verdicts_judged': 600, 'good_controls': 40, 'bad_plans': 250,
           'noise_pairs': 150, 'child_fault_cases': 100, 'mode_sets': 150,
           'cli_status_checked': 30}
 BATCH_TIMEOUT = 600
@@ -35,6 +35,12 @@ NOISE_LINES = ['0 0 0\n', '3 1 1\n', ' 12 0 0 \r\n', '5 0\n', '1 2 3 4\n',
                'seconds.\n', 'Tests with errors:\n   bogus\n',
                'café ☃\n', 'no newline at end', '\n' * 50]
 STREAMS = ['stdout', 'stderr', '__stderr__', 'fd1', 'fd2', 'stdout.buffer']
+
+
+# kinds whose outcome is decided at run time (no decorator involved), so
+# that it can differ between the executions of one test (kinds_seq)
+DYN_KINDS = ['fail', 'error', 'setup_error', 'teardown_error',
+             'body_teardown_error', 'cleanup_error', 'fail_teardown_error']
 
 
 def batch_size(tier):
@@ -104,6 +110,20 @@ def header_noise_on_child_stderr(plan):
                hdr(a.get('text', '')) for a in acts)
 
 
+def unterminated_noise_on_child_stderr(plan):
+    """Does the overlay write a partial line (no line end) to the child's
+    real stderr?  (classification of the known finding only)"""
+    acts = []
+    for t in (plan.get('tests') or {}).values():
+        acts += t.get('actions') or []
+    for h in (plan.get('layers') or {}).values():
+        for v in h.values():
+            if isinstance(v, dict):
+                acts += v.get('actions') or []
+    return any(a.get('stream') in ('__stderr__', 'fd2') and
+               a.get('text') and not a['text'].endswith('\n') for a in acts)
+
+
 def run_case(case):
     import common
     import gen
@@ -152,6 +172,15 @@ def run_case(case):
             if kind == 'subtests':
                 ov['subs'] = rng.choice([['F'], ['P', 'E'], ['F', 'E', 'P'],
                                          ['S', 'F']])
+            if kind in DYN_KINDS and rng.random() < 0.4:
+                # bad in some --repeat iterations only (first only, all but
+                # the first, the middle one ...)
+                ov = {'kind': 'pass', 'kinds_seq': rng.choice([
+                    [kind, 'pass'], ['pass', kind], ['pass', kind, 'pass'],
+                    [kind, 'pass', kind], [kind, 'skip_body']])}
+                p['_repeat'] = rng.choice([2, 3, 3])
+            elif rng.random() < 0.15:
+                p['_repeat'] = 2
             p.setdefault('tests', {})[item[1]] = ov
         elif item[0] == 'layer':
             p.setdefault('layers', {}).setdefault(item[1], {})[item[2]] = \
@@ -187,6 +216,8 @@ def run_case(case):
         import copy
         p = plan
         o = {'verbose': rng.choice([0, 0, 1, 2])}
+        if plan.get('_repeat'):
+            o['repeat'] = plan['_repeat']
         if mode == 'resume':
             p = copy.deepcopy(plan)
             for ln in lnames:
@@ -264,6 +295,12 @@ def run_case(case):
                                    and e['pid'] != par for e in wn.events)
                         if kids and header_noise_on_child_stderr(pn):
                             mech = 'verdict-header-lookalike-noise'
+                        elif kids and wn.verdict is True and \
+                                unterminated_noise_on_child_stderr(pn):
+                            # partial line glued to the report header: the
+                            # parent cannot parse it (false 'failed' only)
+                            mech = 'verdict-unterminated-noise-glued-to-' \
+                                   'header'
                         V('verdict-changed-by-noise', mech, mode=mode,
                           quiet=w.verdict, noisy=wn.verdict, plan=pn,
                           out=wn.out[-500:])
@@ -276,6 +313,11 @@ def run_case(case):
                     sigs.append([common.shape_of(spec), plan, sorted(modes)])
             if intended_bad:
                 C('bad_plans')
+            if plan.get('_repeat'):
+                C('repeat_plans')
+                if any('kinds_seq' in (t or {}) for t in
+                       (plan.get('tests') or {}).values()):
+                    C('iteration_dependent_plans')
         # ---- CLI exit status
         for label, plan, _b in rng.sample(plans, min(2, len(plans))):
             w, p, o = one(plan, 'in', cli=True)
@@ -314,12 +356,20 @@ def run_case(case):
                   plan=plan, out=w.out[-700:])
             C('verdicts_judged')
         # spawn failure
+        # (the n-th Popen only, or - persistently - every attempt to start
+        # a child for the n-th layer)
         w, p, o = one(base_plan, 'j2', env_extra={
-            'ZTR_SPAWN_FAIL': '%d:%s' % (rng.randint(1, max(1, k)),
-                                         rng.choice(['EAGAIN', 'ENOMEM']))})
+            'ZTR_SPAWN_FAIL': '%s%d:%s' % (rng.choice(['', 'layer#']),
+                                           rng.randint(1, max(1, k)),
+                                           rng.choice(['EAGAIN', 'ENOMEM']))})
         C('child_fault_cases')
         C('verdicts_judged')
-        failed_spawn = any(e['k'] == 'spawn.fail' for e in w.events)
+        # bad fact: a layer for which no child was ever started
+        started_layers = {e.get('layer') for e in w.events
+                          if e['k'] == 'spawn'}
+        failed_spawn = any(e['k'] == 'spawn.fail' and
+                           e.get('layer') not in started_layers
+                           for e in w.events)
         if w.raised is not None:
             V('run-aborted-on-spawn-failure', 'verdict-spawn-failure-raised',
               tb=(w.raised_tb or '')[-600:])
